@@ -41,6 +41,22 @@ fn main() {
                 std::process::exit(3);
             }
         }
+        "ts-parse" => {
+            for f in &args[2..] {
+                let src = std::fs::read_to_string(f).unwrap();
+                match nqv::ts::parse_module(&src) {
+                    Ok(st) => println!("{f}: ok, {} statements", st.len()),
+                    Err(e) => println!("{f}: ERROR {e}"),
+                }
+            }
+        }
+        "ts-selftest" => {
+            let f = nqv::ts::selftest();
+            for x in &f {
+                println!("FAIL {x}");
+            }
+            println!("{} failures", f.len());
+        }
         "selftest" => {
             // generator acceptance rates and a sample, for eyeballing
             use nqv::gen_ops::{OpOpts, gen_doc_once};
